@@ -8,6 +8,8 @@ import (
 	"strconv"
 	"testing"
 	"time"
+
+	"verifrt"
 )
 
 func envInt(name string, def int64) int64 {
@@ -22,26 +24,28 @@ func envInt(name string, def int64) int64 {
 
 // WorkerOut is what one worker process reports to the driver.
 type WorkerOut struct {
-	Engine   string         `json:"engine"`
-	Profile  string         `json:"profile"`
-	Seed     uint64         `json:"seed"`
-	Runs     int            `json:"runs"`
-	FirstIdx uint64         `json:"first_idx"`
-	LastIdx  uint64         `json:"last_idx"`
-	Steps    int64          `json:"steps"`
-	SimTimeS float64        `json:"sim_time_s"`
-	WallS    float64        `json:"wall_s"`
-	Stats    map[string]int `json:"stats"`
-	FPs      []string       `json:"fps"` // schedule fingerprints of non-trivial runs
-	Hashes   []string       `json:"hashes,omitempty"`
-	StepCaps int            `json:"step_caps"`
-	Leftover int            `json:"leftover_runs"`
-	Harness  string         `json:"harness,omitempty"`
-	Viols    []*ReplayFile  `json:"violations,omitempty"`
-	Other    map[string]int `json:"ended_by_other_property,omitempty"`
-	Known    map[string]int `json:"known,omitempty"`
-	Samples  []any          `json:"samples,omitempty"`
-	SiteHits []uint32       `json:"site_hits,omitempty"`
+	Engine        string         `json:"engine"`
+	Profile       string         `json:"profile"`
+	Seed          uint64         `json:"seed"`
+	Runs          int            `json:"runs"`
+	FirstIdx      uint64         `json:"first_idx"`
+	LastIdx       uint64         `json:"last_idx"`
+	Steps         int64          `json:"steps"`
+	SimTimeS      float64        `json:"sim_time_s"`
+	WallS         float64        `json:"wall_s"`
+	Stats         map[string]int `json:"stats"`
+	FPs           []string       `json:"fps"` // schedule fingerprints of non-trivial runs
+	Hashes        []string       `json:"hashes,omitempty"`
+	StepCaps      int            `json:"step_caps"`
+	Leftover      int            `json:"leftover_runs"`
+	Harness       string         `json:"harness,omitempty"`
+	Viols         []*ReplayFile  `json:"violations,omitempty"`
+	Other         map[string]int `json:"ended_by_other_property,omitempty"`
+	Known         map[string]int `json:"known,omitempty"`
+	Samples       []any          `json:"samples,omitempty"`
+	SiteHits      []uint32       `json:"site_hits,omitempty"`
+	SiteNames     []string       `json:"site_names,omitempty"`
+	StepCapSample []string       `json:"step_cap_sample,omitempty"`
 }
 
 // TestWorker runs simulated executions idx = from, from+stride, ... < to (or
@@ -89,6 +93,14 @@ func TestWorker(t *testing.T) {
 		}
 		if r.StepCap {
 			out.StepCaps++
+			if out.StepCapSample == nil {
+				rr := doRun(t, engine, profile, tier, seed, idx, r.Trace, true)
+				n := len(rr.LogLines)
+				if n > 60 {
+					rr.LogLines = rr.LogLines[n-60:]
+				}
+				out.StepCapSample = append([]string{fmt.Sprintf("run %d", idx)}, rr.LogLines...)
+			}
 		}
 		if r.Leftover > 0 {
 			out.Leftover++
@@ -170,6 +182,9 @@ func TestWorker(t *testing.T) {
 		}
 	}
 	out.WallS = time.Since(start).Seconds()
+	if from < stride && from == 0 {
+		out.SiteNames = verifrt.SiteNames
+	}
 	if p := os.Getenv("VERIF_OUT"); p != "" {
 		if err := writeJSON(p, out); err != nil {
 			t.Fatal(err)
